@@ -327,7 +327,7 @@ pub fn run_property<P: Property>(p: P, tier: Tier, seed: u64, extra: Extra) -> i
             }
         }
     }
-    let fixed_list = p.fixed_cases(tier);
+    let fixed_list = if std::env::var("VERIF_SKIP_FIXED").is_ok() { vec![] } else { p.fixed_cases(tier) };
     let fixed_n = fixed_list.len() as u64;
     for (i, c) in fixed_list.into_iter().enumerate() {
         fixed.push((format!("fixed:{}", i), c));
@@ -492,7 +492,8 @@ pub fn run_property<P: Property>(p: P, tier: Tier, seed: u64, extra: Extra) -> i
         "wall_s": wall,
         "violations": if failure.is_some() { 1 } else { 0 },
     });
-    let evdir = verif_root().join("evidence");
+    let skip_evidence = std::env::var("VERIF_NO_EVIDENCE").is_ok();
+    let evdir = verif_root().join(if skip_evidence { "replays/evidence-scratch" } else { "evidence" });
     let _ = std::fs::create_dir_all(&evdir);
     let evpath = evdir.join(format!("{}.json", id));
     if let Err(e) = std::fs::write(&evpath, serde_json::to_string_pretty(&ev).unwrap()) {
